@@ -2,7 +2,7 @@
 # usage: tools/mutant.sh <worktree> <patch.diff> <PID> [tier]   - run a check against a patched scratch worktree
 set -u
 WT=$1; PATCH=$2; PID=$3; TIER=${4:-quick}
-git -C "$WT" checkout -q -- . && git -C "$WT" apply "$PATCH" || { echo "patch failed"; exit 3; }
+git -C "$WT" checkout -q -- . && git -C "$WT" checkout -q --detach $(git -C /repo rev-parse HEAD) && git -C "$WT" apply "$PATCH" || { echo "patch failed"; exit 3; }
 cd /verif && VK_REPO="$WT" VK_NO_EVIDENCE=1 /venv/bin/python -m vk.run "$PID" --tier "$TIER" > /tmp/mutant.$PID.out 2>&1
 rc=$?
 git -C "$WT" checkout -q -- .
